@@ -541,8 +541,10 @@ def run_check(pid, tier, seed, nruns=None, workers=None):
         f"violations={n_viol} known={n_known} wall={wall:.1f}s"
     )
     if harness_errors:
-        for e in harness_errors:
+        for e in harness_errors[:3]:
             print("HARNESS-ERROR:", e.strip()[-1500:], file=sys.stderr)
+        if len(harness_errors) > 3:
+            print(f"HARNESS-ERROR: ... and {len(harness_errors) - 3} more", file=sys.stderr)
         if n_viol:
             return 1
         return 2
